@@ -177,6 +177,8 @@ type vWorld struct {
 	reload  bool
 	poolEvt bool
 	inPass  bool
+	// a pass the script does not know about (a reload request the model did not expect is pending)
+	unscripted bool
 	// fault injection for the next UpdateStatus
 	fate string
 	// log of the step being executed
@@ -354,7 +356,7 @@ func (w *vWorld) drainReload() {
 func (w *vWorld) handler(l log.Logger, name string, svc *v1.Service, eps []discovery.EndpointSlice) controllers.SyncState {
 	var cur json.RawMessage
 	idx := -1
-	if w.inPass {
+	if w.inPass && !w.unscripted {
 		for w.pos < len(w.steps) {
 			var a vAct
 			kit.Must(json.Unmarshal(w.steps[w.pos], &a))
@@ -518,7 +520,7 @@ func (w *vWorld) exec(raw json.RawMessage, a vAct, idx int) {
 		w.drainReload()
 		if crashed {
 			// the crash was logged by the step that caused it; skip the rest of the scripted pass
-			for w.pos < len(w.steps) {
+			for !w.unscripted && w.pos < len(w.steps) {
 				var n vAct
 				kit.Must(json.Unmarshal(w.steps[w.pos], &n))
 				if n.Op != "PassStep" && n.Op != "PassEnd" {
@@ -533,7 +535,7 @@ func (w *vWorld) exec(raw json.RawMessage, a vAct, idx int) {
 		// the real pass is over: scripted PassSteps that were not reached (the real pass had fewer
 		// handler calls) are dropped up to the scripted PassEnd; anything else is left to the main loop
 		endIdx := -1
-		for w.pos < len(w.steps) {
+		for !w.unscripted && w.pos < len(w.steps) {
 			var n vAct
 			kit.Must(json.Unmarshal(w.steps[w.pos], &n))
 			if n.Op == "PassEnd" {
@@ -694,6 +696,18 @@ func TestVerifControllerReplay(t *testing.T) {
 			idx := w.pos
 			w.pos++
 			w.exec(raw, a, idx)
+			// A reload request is pending although the script does not start a pass next: the real
+			// system may run that pass at any moment (single worker, but the queue order is free).
+			// Half of the time (seeded) it runs now, unscripted.
+			if w.reload && !w.inPass && w.pos < len(w.steps) && w.rnd.Intn(2) == 0 {
+				var n vAct
+				kit.Must(json.Unmarshal(w.steps[w.pos], &n))
+				if n.Op != "PassBegin" {
+					w.unscripted = true
+					w.exec(json.RawMessage(`{"op":"PassBegin"}`), vAct{Op: "PassBegin"}, -1)
+					w.unscripted = false
+				}
+			}
 		}
 		if drain {
 			w.drain()
